@@ -682,6 +682,15 @@ CAMPAIGNS['C09'].append(
          'that build', mode='sched-sweep', nontrivial=nt_threads, chunk=3,
          post='tag_all:C09', weight=1.6,
          sweep_max={'quick': 16, 'thorough': None}))
+CAMPAIGNS['C09'].append(
+    camp('c09-duplicates-line', 'threads',
+         {'p_same_key': 1.0, 'p_tamper': 0.7, 'p_line': 1.0},
+         'two to four simulated threads issue the same build_file / subbuild '
+         'key for outputs that were tampered with (so that every thread '
+         'validates, hashes and tries to rebuild), with line-level '
+         'preemption inside the package; afterwards an unchanged rebuild '
+         're-executes nothing', nontrivial=nt_threads, chunk=4,
+         post='tag_all:C09', weight=0.6))
 RACE_RULE = ('a key (build_file path / subbuild name+arguments) performed '
              'directly by one thread while another thread reuses or '
              're-executes a cached subtree (depth 1-2) that contains it; '
